@@ -98,7 +98,7 @@ func parseChain(spec string) (config.PluginsConfig, error) {
 			pc.Chain = append(pc.Chain, config.PluginConfig{Name: "headers", Config: map[string]interface{}{
 				"set": map[string]interface{}{"X-V-App": "Helios"}, "request_set": map[string]interface{}{"X-V-From": "LB"}}})
 		case "auth":
-			pc.Chain = append(pc.Chain, config.PluginConfig{Name: "custom-auth", Config: map[string]interface{}{"apiKey": f[1]}})
+			pc.Chain = append(pc.Chain, config.PluginConfig{Name: "custom-auth", Config: map[string]interface{}{"apiKey": unesc(strings.Join(f[1:], "."))}})
 		case "pr":
 			pc.Chain = append(pc.Chain, config.PluginConfig{Name: "verif-probe", Config: map[string]interface{}{"id": f[1]}})
 		default:
